@@ -919,7 +919,7 @@ where
                         <<U as Encoding>::Components as Components>::Component
                         as Component
                     >::parent().as_bytes());
-                } else {
+                } else if component.is_normal() {
                     path.push(component.as_bytes());
                 }
             }
@@ -995,7 +995,7 @@ where
                     <<<U as Encoding>::Components as Components>::Component as Component>::parent()
                         .as_bytes(),
                 );
-            } else {
+            } else if component.is_normal() {
                 path.push_checked(component.as_bytes())?;
             }
         }
